@@ -240,7 +240,7 @@ func replayViolation(prog *Program, prop string, v violation, path string) bool 
 	var sb strings.Builder
 	fmt.Fprintf(&sb, "property: %s\nfailed obligation: %s\nat: %s\nreason: %s\n", prop, v.obl, v.pos, v.reason)
 	confirmed := false
-	if v.model != "" {
+	if v.oblRef != nil {
 		ok, txt := tryReplay(prog, v)
 		confirmed = ok
 		sb.WriteString(txt)
